@@ -169,7 +169,7 @@ struct AnalyserInternalEquation
 
     Type mType = Type::UNKNOWN;
 
-    VariablePtrs mDependencies;
+    AnalyserInternalVariablePtrs mDependencies;
 
     AnalyserEquationAstPtr mAst;
 
@@ -341,7 +341,7 @@ bool AnalyserInternalEquation::check(const AnalyserModelPtr &model,
 
     for (const auto &variable : mVariables) {
         if (isKnownVariable(variable)) {
-            mDependencies.push_back(variable->mVariable);
+            mDependencies.push_back(variable);
         }
     }
 
@@ -482,7 +482,7 @@ bool AnalyserInternalEquation::check(const AnalyserModelPtr &model,
         // on our unknown variables or we will end up in a circular dependency.
 
         for (const auto &unknownVariable : mUnknownVariables) {
-            auto it = std::find(mDependencies.begin(), mDependencies.end(), unknownVariable->mVariable);
+            auto it = std::find(mDependencies.begin(), mDependencies.end(), unknownVariable);
 
             if (it != mDependencies.end()) {
                 mDependencies.erase(it);
@@ -3288,7 +3288,13 @@ void Analyser::AnalyserImpl::analyseModel(const ModelPtr &model)
                 }
             }
         } else {
-            variableDependencies = internalEquation->mDependencies;
+            // Note: the primary variable of an equivalence class may have
+            //       changed since the dependency was recorded, hence we track
+            //       the internal variable and retrieve its variable here.
+
+            for (const auto &dependency : internalEquation->mDependencies) {
+                variableDependencies.push_back(dependency->mVariable);
+            }
         }
 
         AnalyserEquationPtrs equationDependencies;
